@@ -201,7 +201,10 @@ impl Inst {
                 Err(e) => Resp::Err { code: -32000, message: format!("http: {}", e), data: Value::Null },
             };
         }
-        call_methods(&self.methods(), method, params, self.timeout)
+        // bulk operations (tens of thousands of mined blocks written out at once) get five times the
+        // default limit; checks that set their own, shorter limit to judge hangs keep it
+        let t = if self.timeout == Duration::from_secs(120) && matches!(method, "brc20_commitToDatabase" | "brc20_mine" | "brc20_reorg" | "brc20_initialise" | "brc20_clearCaches") { self.timeout * 5 } else { self.timeout };
+        call_methods(&self.methods(), method, params, t)
     }
 
     /// Raw request text (for malformed framing).
@@ -284,7 +287,15 @@ pub struct Net {
 pub const CHAIN_ID_MAIN: u64 = 0x4252433230;
 pub const CHAIN_ID_TEST: u64 = 0x425243323073;
 
+/// The chain id is configuration (CHAIN_ID), the network name only decides its default: a worker may
+/// configure another one for its whole process (0 = the default for the network).
+pub static CHAIN_ID_OVERRIDE: AtomicU64 = AtomicU64::new(0);
+
 pub fn chain_id_for(network: &str) -> u64 {
+    let o = CHAIN_ID_OVERRIDE.load(Ordering::Relaxed);
+    if o != 0 {
+        return o;
+    }
     if network == "bitcoin" || network == "mainnet" {
         CHAIN_ID_MAIN
     } else {
